@@ -52,12 +52,12 @@ REQUESTS = {
         A(GROUPED, S("<topic>"), A(BYTOPIC, P(I32, "<partition>"), P(I64, "<payload>.time"), P(I32, "<payload>.max_offsets")))]),
     "encode_metadata_request": ("Metadata", 0, [A("topics", S("<each topics>"))]),
     "encode_offset_commit_request": ("OffsetCommit", 1, [
-        S("group"), P(I32, "group_generation_id"), S("consumer_id"),
+        T("group"), P(I32, "group_generation_id"), T("consumer_id"),
         A(GROUPED, S("<topic>"), A(BYTOPIC, P(I32, "<partition>"), P(I64, "<payload>.offset"), P(I64, "<payload>.timestamp"),
                                    S("<payload>.metadata")))]),
     "encode_offset_fetch_request": ("OffsetFetch", 1, [
-        S("group"), A(GROUPED, S("<topic>"), A(BYTOPIC, P(I32, "<partition>")))]),
-    "encode_consumermetadata_request": ("FindCoordinator", 0, [S("consumer_group")]),
+        T("group"), A(GROUPED, S("<topic>"), A(BYTOPIC, P(I32, "<partition>")))]),
+    "encode_consumermetadata_request": ("FindCoordinator", 0, [T("consumer_group")]),
     "encode_join_group_request": ("JoinGroup", 0, [
         T("payload.group"), P(I32, "payload.session_timeout"), T("payload.member_id"), T("payload.protocol_type"),
         A("payload.group_protocols", S("<each payload.group_protocols>.protocol_name"),
